@@ -25,8 +25,19 @@ from harness.common import VERIF, Ctx, parallel_workers
 NCOLL, NTYPE, NVALID = 5, 3, 4          # collections 0..4 (5 never registered), types 0..2 (3 never), data ids 0..3 valid
 NDET = 2
 DOCUMENTED = {"Conflict", "MissingCollection", "MissingDatasetType", "CollectionTypeErr", "DataIdValueErr"}
+# second layer: error classes documented for single operations only (removeCollection documents the raw IntegrityError for a
+# collection that is still a child of a chain; certify of a dataset that does not exist fails on the foreign key)
+DOCUMENTED_BY_OP = {"RemoveColl": {"SqlError"}, "Certify": {"SqlError", "DatasetTypeErr"}, "RemoveType": {"Orphaned"},
+                    "SetChain": {"Cycle"}}
 ERRCODE = {"Ok": 0, "OkNew": 1, "Err:Conflict": 2, "Err:MissingCollection": 3, "Err:MissingDatasetType": 4,
-           "Err:CollectionTypeErr": 5, "Err:DataIdValueErr": 6}
+           "Err:CollectionTypeErr": 5, "Err:DataIdValueErr": 6, "Err:SqlError": 7, "Err:DatasetTypeErr": 8, "Err:Orphaned": 9,
+           "Err:Cycle": 10}
+XNCOLL = 6                              # second-layer histories: collections 0..5 (6 never registered)
+CALIB_TYPE = 2                          # dt2 is the calibration dataset type
+XHDR = ("From Coq Require Import NArith List.\nFrom V Require Import Model.Registry Model.RegistryAbs Model.RegistryCheck "
+        "Model.RegistryX Model.RegistryXCheck.\nImport ListNotations.\nOpen Scope N_scope.\n")
+XUNIV = f"[{';'.join(str(i) for i in range(XNCOLL + 1))}] [{';'.join(str(i) for i in range(NTYPE + 1))}] [0;1]"
+XOPS = ("RegChain", "RegCalib", "SetChain", "Certify", "RemoveType")
 HDR = ("From Coq Require Import NArith List.\nFrom V Require Import Model.Registry Model.RegistryAbs Model.RegistryCheck.\n"
        "Import ListNotations.\nOpen Scope N_scope.\n")
 UNIV = f"[{';'.join(str(i) for i in range(NCOLL + 1))}] [{';'.join(str(i) for i in range(NTYPE + 1))}] [0;1]"
@@ -36,14 +47,60 @@ UNIV = f"[{';'.join(str(i) for i in range(NCOLL + 1))}] [{';'.join(str(i) for i 
 # The abstract specification, written from the property statement (NOT from the Coq model)
 # =================================================================================================
 class Spec:
-    """colls: name -> 'RUN'|'TAGGED'; types: set; ds: id -> (type, data id, run);
-    member: collection -> {(type, data id): dataset id}."""
+    """colls: name -> 'RUN'|'TAGGED'|'CHAINED'|'CALIBRATION'; types: set; ds: id -> (type, data id, run);
+    member: RUN / TAGGED collection -> {(type, data id): dataset id};
+    chain: CHAINED collection -> ordered children;  cal: certified memberships [c, t, d, i, b, e] (validity [b, e))."""
 
     def __init__(self):
         self.colls, self.types, self.ds, self.member = {}, set(), {}, {}
+        self.chain, self.cal = {}, []
 
     def view(self):
         return sorted([c, t, d, i] for c, m in self.member.items() for (t, d), i in m.items())
+
+    # ---- second layer: what a search path / a chain shows ------------------------------------------------
+    def flatten(self, c, seen=None):
+        seen = seen if seen is not None else set()
+        if self.colls.get(c) != "CHAINED":
+            return [c]
+        if c in seen:
+            return []
+        out = []
+        for ch in self.chain.get(c, []):
+            out += self.flatten(ch, seen | {c})
+        return out
+
+    def holds(self, c):
+        """set of (t, d, i) a non-chained collection holds"""
+        if self.colls.get(c) == "CALIBRATION":
+            return {(t, d, i) for c_, t, d, i, _, _ in self.cal if c_ == c}
+        return {(t, d, i) for (t, d), i in self.member.get(c, {}).items()}
+
+    def xview(self, c):
+        """what a query over CHAINED / CALIBRATION collection c must report: the union over the flattened children"""
+        out = set()
+        for ch in self.flatten(c):
+            out |= {(c, t, d, i) for t, d, i in self.holds(ch)}
+        return out
+
+    def xfirst(self, c):
+        """find-first over a chain, non-calibration dataset types: the first child that holds the key"""
+        out = {}
+        for ch in self.flatten(c):
+            for t, d, i in self.holds(ch):
+                if t != CALIB_TYPE:
+                    out.setdefault((c, t, d), i)
+        return {k + (i,) for k, i in out.items()}
+
+    def reach(self, c, seen=None):
+        """chained collections reachable from c (c included)"""
+        seen = seen if seen is not None else set()
+        if self.colls.get(c) != "CHAINED" or c in seen:
+            return set()
+        out = {c}
+        for ch in self.chain.get(c, []):
+            out |= self.reach(ch, seen | {c})
+        return out
 
     def judge(self, op):
         """-> (verdict, new Spec | None); verdict in accept | conflict | invalid | either | noop_any.
@@ -57,6 +114,47 @@ class Spec:
             if op[1] not in n.colls:
                 n.colls[op[1]] = "RUN" if k == "RegRun" else "TAGGED"
                 n.member[op[1]] = {}
+            return "accept", n
+        if k in ("RegChain", "RegCalib"):
+            if op[1] not in n.colls:
+                n.colls[op[1]] = "CHAINED" if k == "RegChain" else "CALIBRATION"
+                if k == "RegChain":
+                    n.chain[op[1]] = []
+            return "accept", n
+        if k == "SetChain":
+            _, c, children = op
+            ch = list(dict.fromkeys(children))
+            if n.colls.get(c) != "CHAINED" or any(x not in n.colls for x in ch):
+                return "invalid", None
+            if any(c in self.reach(x) for x in ch):
+                return "invalid", None              # would close a cycle
+            n.chain[c] = ch
+            return "accept", n
+        if k == "Certify":
+            _, c, items, b, ln = op
+            e = b + 1 + ln
+            if not items:
+                return "noop_any", None
+            if n.colls.get(c) != "CALIBRATION" or any(t not in n.types or t != CALIB_TYPE for _, t, _, _ in items):
+                return "invalid", None
+            if any(self.ds.get(i) != (t, d, r) for i, t, d, r in items):
+                return "invalid", None              # stale / unknown dataset
+            keys = [(t, d) for _, t, d, _ in items]
+            if len(keys) != len(set(keys)):
+                return "conflict", None             # two datasets (or one twice) for one key and one validity range
+            for c_, t, d, i, b_, e_ in self.cal:
+                if c_ == c and (t, d) in keys and b_ < e and b < e_:
+                    return "conflict", None         # overlapping validity range for the key
+            for i, t, d, _ in items:
+                n.cal.append([c, t, d, i, b, e])
+            return "accept", n
+        if k == "RemoveType":
+            t = op[1]
+            if t not in n.types:
+                return "accept", n                  # documented: returns without action
+            if any(t_ == t for t_, _, _ in n.ds.values()):
+                return "orphaned", None
+            n.types.discard(t)
             return "accept", n
         if k == "RegType":
             n.types.add(op[1])
@@ -123,11 +221,14 @@ class Spec:
                     for m in n.member.values():
                         for key in [key for key, v in m.items() if v == i]:
                             del m[key]
+                    n.cal = [r for r in n.cal if r[3] != i]      # a removed dataset leaves every calibration collection too
             return "accept", n
         if k == "RemoveColl":
             c = op[1]
             if c not in n.colls:
                 return "invalid", None
+            if any(c in ch for ch in n.chain.values()):
+                return "invalid", None              # still a child of a chain: documented to be refused
             if n.colls[c] == "RUN":
                 gone = {i for i, (_, _, r) in n.ds.items() if r == c}
                 for i in gone:
@@ -135,8 +236,11 @@ class Spec:
                 for m in n.member.values():
                     for key in [key for key, v in m.items() if v in gone]:
                         del m[key]
+                n.cal = [r for r in n.cal if r[3] not in gone]
+            n.cal = [r for r in n.cal if r[0] != c]
+            n.chain.pop(c, None)
             del n.colls[c]
-            del n.member[c]
+            n.member.pop(c, None)
             return "accept", n
         raise ValueError(op)
 
@@ -144,8 +248,10 @@ class Spec:
 # =================================================================================================
 # generator
 # =================================================================================================
-def gen_history(rng: random.Random, length: int):
-    """Generated against the abstract state so that most ops are valid; about a quarter come from a malformed
+def gen_history(rng: random.Random, length: int, ext: bool = False):
+    """ext=True: second-layer history (CHAINED / CALIBRATION collections, setCollectionChain, certify, removeDatasetType
+    mixed into the first-layer stream, over XNCOLL collection names).
+    Generated against the abstract state so that most ops are valid; about a quarter come from a malformed
     stream (unknown names, wrong collection type, stale / never-existing refs, duplicate batch entries,
     invalid data ids, colliding keys, reused ids)."""
     sp = Spec()
@@ -157,8 +263,43 @@ def gen_history(rng: random.Random, length: int):
         fresh[0] += 1
         return fresh[0]
 
+    nc = XNCOLL if ext else NCOLL
+
     def anyc():
-        return rng.randrange(NCOLL + 1)
+        return rng.randrange(nc + 1)
+
+    def xop():
+        """one second-layer operation"""
+        y = rng.random()
+        chained = [c for c, k in sp.colls.items() if k == "CHAINED"]
+        calib = [c for c, k in sp.colls.items() if k == "CALIBRATION"]
+        if y < 0.08 or not chained and y < 0.3:
+            return ["RegChain", anyc()]
+        if y < 0.16 or not calib and y < 0.5:
+            return ["RegCalib", anyc()]
+        if y < 0.42:
+            c = rng.choice(chained) if chained and rng.random() > 0.1 else anyc()
+            pool = sorted(sp.colls) if sp.colls and rng.random() > 0.12 else list(range(nc + 1))
+            ch = [rng.choice(pool) for _ in range(rng.choice([0, 1, 2, 2, 3, 3]))]
+            return ["SetChain", c, ch]
+        if y < 0.82:
+            c = rng.choice(calib) if calib and rng.random() > 0.12 else anyc()
+            cands = sorted(i for i, (t, _, _) in sp.ds.items() if t == CALIB_TYPE)
+            items = []
+            for _ in range(rng.choice([0, 1, 1, 1, 2, 2, 3])):
+                if cands and rng.random() > 0.12:
+                    i = rng.choice(cands)
+                    t, d, r = sp.ds[i]
+                    items.append([i, t, d, r])
+                else:
+                    items.append(someref())
+            if items and rng.random() < 0.08:
+                items.append(list(items[0]))
+            b = rng.randrange(6)
+            return ["Certify", c, items, b, rng.choice([0, 0, 1, 2, 4])]
+        if y < 0.92:
+            return ["RemoveType", rng.randrange(NTYPE + 1)]
+        return ["RemoveColl", rng.choice(sorted(sp.colls)) if sp.colls else anyc()]
 
     def pick(kind, bad=0.15):
         good = [c for c, k in sp.colls.items() if k == kind]
@@ -193,14 +334,27 @@ def gen_history(rng: random.Random, length: int):
 
     prefix = [["RegRun", anyc()], ["RegRun", anyc()], ["RegTag", anyc()], ["RegTag", anyc()],
               ["RegType", rng.randrange(NTYPE)], ["RegType", rng.randrange(NTYPE)]]
+    if ext:
+        prefix = [["RegRun", anyc()], ["RegRun", anyc()], ["RegTag", anyc()], ["RegCalib", anyc()], ["RegChain", anyc()],
+                  ["RegType", CALIB_TYPE], ["RegType", rng.randrange(NTYPE)]]
     rng.shuffle(prefix)
     while len(hist) < length:
+        if ext and len(hist) >= len(prefix) and rng.random() < 0.33:
+            op = xop()
+            hist.append(op)
+            verdict, n = sp.judge(op)
+            if verdict == "accept" and n is not None:
+                for i, v in sp.ds.items():
+                    if i not in n.ds:
+                        dead[i] = v
+                sp = n
+            continue
         x = rng.random()
         if not sp.ds and 0.55 <= x < 0.93 and rng.random() < 0.85:
             x = 0.17 + rng.random() * 0.38        # nothing to associate / remove yet: insert or import instead
         nrun = sum(1 for k in sp.colls.values() if k == "RUN")
-        ntag = len(sp.colls) - nrun
-        if len(hist) < 6 and rng.random() < 0.85:
+        ntag = sum(1 for k in sp.colls.values() if k == "TAGGED")
+        if len(hist) < len(prefix) and rng.random() < 0.85:
             op = prefix[len(hist)]
         elif x < 0.06 or nrun == 0 and x < 0.3:
             op = ["RegRun", anyc()]
@@ -213,7 +367,7 @@ def gen_history(rng: random.Random, length: int):
             items = [[pickd(), newid()] for _ in range(n)]
             if len(items) > 1 and rng.random() < 0.15:
                 items[-1][0] = items[0][0]                       # duplicate data id inside the batch
-            op = ["Insert", pickt(), pick("RUN"), items]
+            op = ["Insert", CALIB_TYPE if ext and rng.random() < 0.35 else pickt(), pick("RUN"), items]
         elif x < 0.55:
             c = pick("RUN")
             n = rng.choice([0, 1, 1, 2, 2, 3])
@@ -307,7 +461,7 @@ def check_history(ctx: Ctx, hist, steps, origin):
         ctx.hist("verdicts", verdict)
         ok = out in ("Ok", "OkNew")
         # ---- outcome against the statement
-        if not ok and out[4:] not in DOCUMENTED:
+        if not ok and out[4:] not in DOCUMENTED | DOCUMENTED_BY_OP.get(opname(op), set()):
             fail("undocumented-error", i, f"{opname(op)} failed with an undocumented error class {out}")
         if verdict == "accept" and not ok:
             fail("valid-op-refused", i, f"a valid {opname(op)} that breaks no uniqueness was refused with {out}")
@@ -316,6 +470,8 @@ def check_history(ctx: Ctx, hist, steps, origin):
                                             f"(or redefine a dataset id) was not refused with the conflict error: {out}")
         elif verdict == "invalid" and ok:
             fail("invalid-op-accepted", i, f"{opname(op)} with invalid arguments was accepted")
+        elif verdict == "orphaned" and out != "Err:Orphaned":
+            fail("type-removed-with-datasets", i, f"removeDatasetType of a type that still has datasets was not refused with OrphanedRecordError: {out}")
         elif verdict == "either" and not (ok or out == "Err:Conflict"):
             fail("valid-op-refused", i, f"{opname(op)} refused with {out}")
         if ok and verdict in ("accept", "either"):
@@ -337,6 +493,8 @@ def check_history(ctx: Ctx, hist, steps, origin):
                  {"api": obs["colls"], "raw": obs["raw_colls"], "listed": obs["colls_listed"], "want": want_c})
         if obs["types"] != sorted(sp.types) or obs["raw_types"] != sorted(sp.types):
             fail("types-differ", i, f"after {opname(op)} -> {out} the dataset types differ from the history's")
+        if "x" in obs and check_x(sp, obs, fail, i, op, out, ok):
+            pass
         # ---- summaries over-approximate
         need_t = {(c, t) for c, t, _, _ in want}
         need_g = {(c, d // NDET) for c, _, d, _ in want}
@@ -362,6 +520,8 @@ def check_history(ctx: Ctx, hist, steps, origin):
             after = [r for r in obs["raw_tags"] if r[0] in tagged]
             if before != after and opname(op) not in ("Assoc", "Disassoc", "RemoveDs", "RemoveColl"):
                 fail("tagged-changed", i, f"TAGGED contents changed at a {opname(op)} step")
+            if opname(op) == "Certify" and prev["raw_tags"] != obs["raw_tags"]:
+                fail("certify-wrote-tag-rows", i, "certify changed the tag rows: certify membership must not be TAGGED / RUN membership")
             if not ok and _observables(prev) != _observables(obs):
                 fail("refused-op-changed-state", i, f"{opname(op)} was refused with {out} but an observable changed")
         for k_, v in obs["probe_errors"].items():
@@ -373,7 +533,66 @@ def check_history(ctx: Ctx, hist, steps, origin):
 
 
 def _observables(obs):
-    return json.dumps([obs["views"], obs["raw_tags"], obs["raw_ds"], obs["colls"], obs["types"], obs["colls_listed"]], sort_keys=True)
+    x = obs.get("x") or {}
+    return json.dumps([obs["views"], obs["raw_tags"], obs["raw_ds"], obs["colls"], obs["types"], obs["colls_listed"],
+                       obs.get("raw_cal"), obs.get("raw_chain"), {k: v for k, v in x.items() if not k.startswith("summ")}], sort_keys=True)
+
+
+def check_x(sp, obs, fail, i, op, out, ok):
+    """Second layer, from the statement: a chain shows the union of what its flattened children hold (every interface);
+    a CALIBRATION collection shows exactly the certified memberships; certify membership is no tag row; removals cascade."""
+    x = obs["x"]
+    kind = "refused-op-changed-contents" if not ok else "contents-differ"
+    xc = sorted(c for c, k in sp.colls.items() if k in ("CHAINED", "CALIBRATION"))
+    want = set()
+    for c in xc:
+        want |= sp.xview(c)
+    for vname in ("qd", "bq"):
+        got = {tuple(r) for r in x[vname]}
+        if got != want:
+            fail(f"{kind}:x-{vname}", i, f"after {opname(op)} -> {out} what {vname} reports for the CHAINED / CALIBRATION collections differs from "
+                 "the union over their flattened children / the certified memberships",
+                 {"got_minus_want": sorted(got - want)[:6], "want_minus_got": sorted(want - got)[:6]})
+            return True
+    want_chain = set()
+    for c in xc:
+        if sp.colls[c] == "CHAINED":
+            want_chain |= sp.xview(c)
+    if {tuple(r) for r in x["qa_chain"]} != want_chain:
+        fail(f"{kind}:x-qa", i, f"after {opname(op)} -> {out} queryDatasetAssociations over a chain differs from the union over its children")
+        return True
+    want_cal = sorted(r for r in sp.cal)
+    if obs["raw_cal"] != want_cal or x["qa_cal"] != want_cal:
+        fail(f"{kind}:calib-rows", i, f"after {opname(op)} -> {out} the certified memberships (raw rows / queryDatasetAssociations) differ from the history's",
+             {"raw": obs["raw_cal"][:8], "api": x["qa_cal"][:8], "want": want_cal[:8]})
+        return True
+    want_first = set()
+    for c in xc:
+        if sp.colls[c] == "CHAINED":
+            want_first |= sp.xfirst(c)
+    for vname in ("first", "fd"):
+        if {tuple(r) for r in x[vname]} != want_first:
+            fail(f"{kind}:x-{vname}", i, f"after {opname(op)} -> {out} find-first over a chain ({vname}) is not the first child that holds the key",
+                 {"got": x[vname][:8], "want": sorted(want_first)[:8]})
+            return True
+    want_def = sorted([c] + list(sp.chain.get(c, [])) for c in xc if sp.colls[c] == "CHAINED")
+    if x["chains"] != want_def or obs["raw_chain"] != [r for r in want_def if len(r) > 1]:
+        fail("chain-definition-differs", i, f"after {opname(op)} -> {out} the chain definitions differ from the history's",
+             {"api": x["chains"], "raw": obs["raw_chain"], "want": want_def})
+        return True
+    # at any instant at most one certified dataset per (collection, type, data ID)
+    rows = obs["raw_cal"]
+    for a in range(len(rows)):
+        for b_ in range(a + 1, len(rows)):
+            if rows[a][:3] == rows[b_][:3] and rows[a][4] < rows[b_][5] and rows[b_][4] < rows[a][5]:
+                fail("two-datasets-one-key:calib", i, "two certified memberships with the same dataset type and data ID have overlapping validity ranges")
+                return True
+    need_t = {(c, t) for c, t, _, _ in want}
+    need_g = {(c, d // NDET) for c, _, d, _ in want}
+    if not need_t <= {tuple(r) for r in x["summ_t"]} or not need_g <= {tuple(r) for r in x["summ_g"]}:
+        fail("summary-misses:x", i, "the summary of a CHAINED / CALIBRATION collection lacks a dataset type / governor value that it holds")
+        return True
+    return False
 
 
 def _brief(obs):
@@ -387,7 +606,7 @@ def domain_cut(hist, steps):
     run.  The registry trusts resolved refs; such inputs are outside the property's domain (design.d/C02.md), so a
     history is compared up to that op only.  Decided on observations, so it holds whatever the generator believed."""
     for i, op in enumerate(hist):
-        if i == 0 or op[0] not in ("Assoc", "Disassoc", "RemoveDs"):
+        if i == 0 or op[0] not in ("Assoc", "Disassoc", "RemoveDs", "Certify"):
             continue
         obs = steps[i - 1]["obs"]
         alive = {i_: (t, r) for i_, t, r in obs["raw_ds"]}
@@ -459,16 +678,50 @@ def cobs(out, obs):
         cll(obs["raw_tags"]), cll(obs["views"]["qd"]), cll(pr), cll(obs["summ_t"]), cll(obs["summ_g"])))
 
 
+def xcop(op):
+    k = op[0]
+    if k == "RegChain":
+        return f"RegisterChained {op[1]}"
+    if k == "RegCalib":
+        return f"RegisterCalib {op[1]}"
+    if k == "SetChain":
+        return f"SetChain {op[1]} [{';'.join(str(c) for c in op[2])}]"
+    if k == "Certify":
+        return f"Certify {op[1]} [{';'.join(f'Ref {i} {t} {d}' for i, t, d, _ in op[2])}] {op[3]} {op[4]}"
+    if k == "RemoveType":
+        return f"RemoveType {op[1]}"
+    return f"Base ({cop(op)})"
+
+
+def xcobs(out, obs):
+    x = obs["x"]
+    kc = {"CHAINED": 3, "CALIBRATION": 4}
+    base = dict(obs, colls=[[c, k] for c, k in obs["colls"] if k in ("RUN", "TAGGED")])
+    view = sorted({tuple(r) for r in x["qd"]})
+    return ("(XObs %d %s %s %s %s %s %s %s %s)" % (
+        ERRCODE.get(out, 99), cobs("Ok", base), cll([[c, kc[k]] for c, k in obs["colls"] if k in kc]), cll(x["chains"]),
+        cll(obs["raw_cal"]), cll(view), cll(x["first"]), cll(x["summ_t"]), cll(x["summ_g"])))
+
+
+def xccase(hist, steps):
+    return "[" + ";\n   ".join(f"({xcop(op)}, {xcobs(s['out'], s['obs'])})" for op, s in zip(hist, steps)) + "]"
+
+
 def ccase(hist, steps):
     return "[" + ";\n   ".join(f"({cop(op)}, {cobs(s['out'], s['obs'])})" for op, s in zip(hist, steps)) + "]"
 
 
 # =================================================================================================
+def is_ext(h):
+    return any(op[0] in XOPS for op in h)
+
+
 def execute(ctx: Ctx, hists, full=True, chunk=2, timeout=900, cached=None):
     """Run histories on the real registry in worker subprocesses; returns list of steps (None when the worker hung
     or crashed, which is reported)."""
     cached = cached or [False] * len(hists)
-    payloads = [{"histories": hists[i:i + chunk], "ncoll": NCOLL, "ntype": NTYPE, "full": full, "cached": cached[i:i + chunk]}
+    payloads = [{"histories": hists[i:i + chunk], "ncoll": XNCOLL if any(is_ext(h) for h in hists[i:i + chunk]) else NCOLL,
+                 "ntype": NTYPE, "full": full, "cached": cached[i:i + chunk]}
                 for i in range(0, len(hists), chunk)]
     res = parallel_workers("c02_impl", "run_histories", payloads, timeout=timeout)
     out = []
@@ -500,10 +753,10 @@ def run(ctx: Ctx):
         "changed a TAGGED collection, one accepted insert/import and one removal that deleted tag rows; every step of every "
         "history is probed through 8 interfaces over every (collection, type, data id)"
     )
-    props_ok = ctx.build_props(extra_targets=["Model/RegistryCheck.vo"])
+    props_ok = ctx.build_props(extra_targets=["Model/RegistryCheck.vo", "Model/RegistryXCheck.vo"])
     if not props_ok:
         from harness.common import coq_make
-        coq_make(["Model/RegistryCheck.vo"])
+        coq_make(["Model/RegistryCheck.vo", "Model/RegistryXCheck.vo"])
 
     # ---- corpus first
     hists, origins = [], []
@@ -516,10 +769,13 @@ def run(ctx: Ctx):
         j = json.load(open(ctx.replay))
         hists, origins, ncorpus = [j["history"]], ["replay"], 1
     else:
-        nh, ln = (40, 30) if ctx.quick else (150, 80)
+        nh, ln, nx = (28, 30, 14) if ctx.quick else (110, 80, 50)
         for k in range(nh):
             hists.append(gen_history(ctx.rng, ln if k % 5 else ln // 2))
             origins.append(f"seed{ctx.seed}/{k}")
+        for k in range(nx):         # second layer: CHAINED / CALIBRATION collections, certify, setCollectionChain, removeDatasetType
+            hists.append(gen_history(ctx.rng, ln if k % 5 else ln // 2, ext=True))
+            origins.append(f"seed{ctx.seed}/x{k}")
     # every third generated history, and a second copy of every corpus history, runs inside one registry caching context
     # (Registry.caching_context(), also entered by Butler.import_ / transfer_from / export): same model, same oracle --
     # a client must see its own completed writes through its caches
@@ -540,6 +796,7 @@ def run(ctx: Ctx):
     results = execute(ctx, hists, chunk=2 if ctx.quick else 1, cached=cached)
 
     cases, meta = [], []
+    xcases, xmeta = [], []
     any_fail = False
     for h, steps, org in zip(hists, results, origins):
         if steps is None:
@@ -553,6 +810,12 @@ def run(ctx: Ctx):
         if nontrivial_rule(h, steps):
             ctx.nontrivial(h)
         ctx.hist("history_length", len(h))
+        if is_ext(h):
+            ctx.hist("layer", "second (chains, calibration, type removal)")
+            xcases.append(xccase(h, steps))
+            xmeta.append((h, steps, org))
+            continue
+        ctx.hist("layer", "first")
         cases.append(ccase(h, steps))
         meta.append((h, steps, org))
     if meta:
@@ -577,6 +840,27 @@ def run(ctx: Ctx):
             ctx.disagreement("hist", {"origin": org, "history": h[: stp + 1], "observed": _brief(steps[stp]["obs"])}, detail)
         else:
             ctx.disagreement("hist", {"origin": org, "history": h}, "model differs (position not recovered): " + txt[-300:])
+    # ---- second layer: Model/RegistryX.v vs implementation
+    xfields = {1: "outcome", 2: "RUN/TAGGED collections", 3: "dataset types", 4: "dataset table", 5: "raw tag rows",
+               6: "queryDatasets view of RUN/TAGGED collections", 7: "summary-pruned query", 8: "summary dataset types (superset)",
+               9: "summary governors (superset)", 11: "CHAINED/CALIBRATION collections", 12: "chain definitions",
+               13: "raw calibration rows", 14: "queryDatasets over CHAINED/CALIBRATION collections (union over flattened children)",
+               15: "find-first over chains", 16: "summary dataset types of CHAINED/CALIBRATION (superset)",
+               17: "summary governors of CHAINED/CALIBRATION (superset)"}
+    if xcases:
+        xbad = ctx.coq_cases("xhist", XHDR, xcases, f"xchk_hist {XUNIV}", shard=4 if ctx.quick else 2, timeout=900)
+        for i in (xbad or [])[:5]:
+            h, steps, org = xmeta[i]
+            rc, txt = ctx.coq_eval("xwhere", XHDR, f"xchk_where {XUNIV} {xcases[i]}")
+            import re
+            m = re.search(r"=\s*\[(\d+);\s*(\d+)\]", txt)
+            if m:
+                stp, fld = int(m.group(1)), int(m.group(2))
+                detail = f"step {stp} ({h[stp]} -> {steps[stp]['out']}): second-layer model differs on {xfields.get(fld, fld)}"
+                ctx.disagreement("xhist", {"origin": org, "history": h[: stp + 1], "observed": _brief(steps[stp]["obs"]),
+                                           "x": steps[stp]["obs"].get("x"), "raw_cal": steps[stp]["obs"].get("raw_cal")}, detail)
+            else:
+                ctx.disagreement("xhist", {"origin": org, "history": h}, "second-layer model differs (position not recovered): " + txt[-300:])
     # how many of the compared histories lie in the domain of abs_commutes (honest: no forged ref handed to associate)
     if meta:
         rc, txt = ctx.coq_eval("honest", HDR, "map honest [" + ";\n ".join("[" + "; ".join(cop(o) for o in h) + "]" for h, _, _ in meta) + "]")
@@ -595,7 +879,7 @@ def run(ctx: Ctx):
     # ---- search when something is broken but the oracle held
     if ctx.broken and not ctx.oracle_failures and not ctx.replay:
         ctx.log("obligation/tie broken without oracle failure: searching deeper on the implementation")
-        extra = [gen_history(ctx.rng, 60) for _ in range(60 if ctx.quick else 200)]
+        extra = [gen_history(ctx.rng, 60, ext=(k % 3 == 2)) for k in range(60 if ctx.quick else 200)]
         res = execute(ctx, extra, chunk=2)
         for k, (h, steps) in enumerate(zip(extra, res)):
             if steps is not None:
